@@ -123,15 +123,20 @@ Ltac go_unfold :=
     go_Lit_Var go_Lit_Int go_Lit_IsPositive go_Lit_Negation go_abs go_min
     go_lvlToSignedLvl go_left go_right go_parent].
 
+(* case split on the condition c of an `if`: a comparison occurring in it, or
+   a boolean variable (a Go bool parameter) *)
+Ltac go_case c :=
+  match c with
+  | context [Z.ltb ?a ?b] => destruct (Z.ltb_spec a b)
+  | context [Z.leb ?a ?b] => destruct (Z.leb_spec a b)
+  | context [Z.eqb ?a ?b] => destruct (Z.eqb_spec a b)
+  | context [?b] => is_var b; match type of b with bool => destruct b end
+  end.
+
 Ltac go_split1 :=
   match goal with
-  | |- context [if ?c then _ else _] =>
-      match c with
-      | context [Z.ltb ?a ?b] => destruct (Z.ltb_spec a b)
-      | context [Z.leb ?a ?b] => destruct (Z.leb_spec a b)
-      | context [Z.eqb ?a ?b] => destruct (Z.eqb_spec a b)
-      | _ => is_var c; destruct c
-      end
+  | |- context [if ?c then _ else _] => go_case c
+  | H : context [if ?c then _ else _] |- _ => revert H; go_case c; intros
   end; cbn [negb andb orb xorb] in *.
 
 Ltac go_solve :=
